@@ -299,8 +299,9 @@ func genC19(r *Rng, e *Emitter, n int) {
 var c19ReaderCount int
 
 type c19Chunks struct {
-	data []byte
-	n    int
+	data        []byte
+	n           int
+	eofWithData bool
 }
 
 func (c *c19Chunks) Read(p []byte) (int, error) {
@@ -313,6 +314,9 @@ func (c *c19Chunks) Read(p []byte) (int, error) {
 	}
 	k = copy(p, c.data[:k])
 	c.data = c.data[k:]
+	if c.eofWithData && len(c.data) == 0 {
+		return k, io.EOF
+	}
 	return k, nil
 }
 
@@ -335,6 +339,9 @@ func c19Reader(data []byte) (io.Reader, func()) {
 		return pr, func() { io.Copy(io.Discard, pr); pr.Close() }
 	case 7:
 		return &c19Chunks{data: data, n: 1 + c19ReaderCount%13}, func() {}
+	case 13, 15:
+		// the last bytes arrive together with io.EOF (as from a decompressor or a body of known length)
+		return &c19Chunks{data: data, n: []int{1 << 20, 700, 5}[c19ReaderCount%3], eofWithData: true}, func() {}
 	case 9:
 		f, err := os.CreateTemp("", "verif-igc-*")
 		if err != nil {
